@@ -154,6 +154,10 @@ def classify(prog, fi, g, dom, n, c):
         t, h = hs[0]
         if try_calls(prog, fi, t, is_loads):
             return "parse/translation failure", spec.CODE_PARSE
+        if try_calls(prog, fi, t, lambda r, cc: call_name(cc) in ("decode", "from_bytes")) and \
+                not try_calls(prog, fi, t, lambda r, cc: call_name(cc) in ("_marshaled_dispatch", "_dispatch", "read", "decode_request_content")):
+            # the request bytes are not text in the expected encoding: no JSON text exists - a parse error or an HTTP-level answer, as one likes
+            return "request body cannot be decoded", "any"
         if name == "_dispatch":
             types = [dump(x) for x in (h.type.elts if isinstance(h.type, ast.Tuple) else [h.type])] if h.type else None
             if types == ["TypeError"]:
@@ -174,6 +178,11 @@ def classify(prog, fi, g, dom, n, c):
             # body: no JSON-RPC failure class of the property applies to a request whose body was never looked at
             return "HTTP request rejected before its body is read", "any"
         return "exception around dispatch / conversion / request handling", spec.CODE_INTERNAL
+    if fi.cls is not None and fi.cls.name == "SimpleJSONRPCRequestHandler" and name != "do_POST" and \
+            not any(isinstance(x, ast.Call) and (call_name(x) in ("_marshaled_dispatch", "decode_request_content", "loads", "load") or
+                                                 dump(x.func) == "self.rfile.read") for x in ast.walk(fi.node)):
+        # an answer of the HTTP layer to a request it does not read (another verb, a refused header): no body, no failure class of the property
+        return "HTTP request rejected before its body is read", "any"
     if name == "do_POST" and not hs:
         # a rejection decided on the HTTP request alone: no body read, decoding or dispatch can come before it or after it
         body_ops = [x.id for x in g.live_nodes() for cc in node_calls(x)
@@ -233,6 +242,9 @@ def check(ck):
                                 "objects are not modelled" % (q.fn(fi), dump(site.expr("code", 0))))
         cls, expected = classify(prog, fi, g, dom, n, c)
         label = "%s: Fault #%d (%s)" % (where, idx, cls or "unclassified")
+        if cls is None and common.is_new_function(fi):
+            raise AnalysisError("%s builds a Fault (code %s) in a new helper method that was not expanded into its callers: the failure "
+                                "class it answers is not modelled" % (where, code))
         if cls is None:
             ck.bad("C05.1", label, "Fault site whose failure class the spec table does not know "
                    "(code %s): cannot be matched with a standard code" % code, q.loc(fi, n))
@@ -443,6 +455,8 @@ def check(ck):
                    "trace (notes follow it, SyntaxError details precede it), so for such exceptions the message names neither the type nor "
                    "the text" % (prov.show(idx_[0])[:80] if idx_ else ""), q.loc(site.fi, site.node))
         has_exc = term_contains(t, exc_term) or term_contains(t, via_helper)
+        if not has_exc and common.is_new_function(site.fi):
+            raise AnalysisError("%s builds the -32603 message in a new helper method from its parameters: not modelled" % q.fn(site.fi))
         ck.require(has_exc, "C05.4", "%s: -32603 message" % q.fn(site.fi), "message derives from the caught exception",
                    "the -32603 message %s does not derive from the caught exception (type and text are lost)" % prov.show(t)[:120],
                    q.loc(site.fi, site.node))
@@ -459,6 +473,26 @@ def check(ck):
             ck.ok("C05.4", "%s: Fault(%s) data=%s" % (q.fn(site.fi), site.code(), dump(de[2])[:40]),
                   "strings / numbers / displays of them only: always serialisable", q.loc(site.fi, site.node))
             continue
+        td_ = prov.origin(cfg_of(de[0]), de[1], de[2])
+        from_request = prov.contains(td_, lambda x: x in (("param", "params"), ("param", "request"), ("param", "data")) or
+                                     (isinstance(x, tuple) and x and x[0] == "attr" and x[2] in ("args", "data")) or
+                                     (isinstance(x, tuple) and x and x[0] == "exc"))
+        if not from_request:
+            # (syntactically: the request's own containers named in the expression or in the definitions of the locals it uses)
+            seen_, todo_ = set(), [de[2]]
+            while todo_ and not from_request:
+                e_ = todo_.pop()
+                for x_ in ast.walk(e_):
+                    if isinstance(x_, ast.Name) and x_.id in ("params", "request") and x_.id in de[0].params:
+                        from_request = True
+                    elif isinstance(x_, ast.Name) and x_.id not in seen_:
+                        seen_.add(x_.id)
+                        todo_ += [st_.value for st_ in ast.walk(de[0].node) if isinstance(st_, ast.Assign) and
+                                  any(isinstance(t_, ast.Name) and t_.id == x_.id for t_ in st_.targets)]
+        if not from_request:
+            # neither provably JSON-safe nor taken from the request / the exception: what it holds is not followed
+            raise AnalysisError("the `data` of the Fault built in %s (`%s`) is of a kind the rules cannot establish: not modelled"
+                                % (q.fn(site.fi), dump(de[2])[:50]))
         ck.bad("C05.4", "%s: Fault(%s) data=%s" % (q.fn(site.fi), site.code(), dump(de[2])[:40]),
                "the error object carries `%s`, taken from the request as loaded (objects built by the class translator included) and not "
                "converted back: the reply cannot be serialised for such arguments and the client receives -32603 / id null instead of "
